@@ -322,7 +322,19 @@ pub fn run(ctx: &Ctx) -> i32 {
             seqs.push(vec![*a, *b]);
         }
     }
-    let exhaustive_n = seqs.len();
+    // runs: the same disturbing client many times in a row (anything that accumulates per failed connection)
+    let run_lens: &[usize] = if ctx.quick() { &[14] } else { &[14, 40] };
+    let mut n_runs = 0;
+    for c in clients {
+        if *c == Client::GoodGet {
+            continue;
+        }
+        for k in run_lens {
+            seqs.push(vec![(*c, Sock::Valid); *k]);
+            n_runs += 1;
+        }
+    }
+    let exhaustive_n = seqs.len() - n_runs;
     // sampled longer sequences
     let nsample = ctx.cases(150, 5000);
     let mut tape = Tape::fresh(ctx.seed ^ 0xc20, 1);
@@ -373,12 +385,12 @@ pub fn run(ctx: &Ctx) -> i32 {
         rep.samples.push(render_seq(&seqs[seqs.len() / 2]));
     }
     rep.exhaustive = true;
-    rep.parts.push(json!({"part": "sequences", "exhaustive_up_to_length_2": exhaustive_n, "sampled_length_3_4": nsample, "exporter_restarts": runner.restarts, "wall_s": t0.elapsed().as_secs_f64()}));
+    rep.parts.push(json!({"part": "sequences", "exhaustive_up_to_length_2": exhaustive_n, "runs_of_one_client": n_runs, "sampled_length_3_4": nsample, "exporter_restarts": runner.restarts, "wall_s": t0.elapsed().as_secs_f64()}));
     finish(
         Finish {
             ctx,
             level: "fault_enumeration",
-            rule: "the statime-metrics-exporter binary built from /repo is run as a subprocess; a case is a sequence of (client behaviour, observation-socket behaviour) pairs followed by a probe (well-formed GET with valid JSON behind it). Client behaviours: well-formed GET, close after 0/1/3/17 bytes, close one byte before the end of the header terminator, 2048/2049/4096 bytes without terminator then close, POST/HEAD/lowercase get, GET split over 2-5 writes and split inside the header terminator, TCP reset before sending, reset after sending without reading the reply. Socket behaviours: valid JSON, truncated JSON, wrong-shape JSON, not JSON, accept-and-close, socket absent. All sequences of length 1 and 2 are enumerated exhaustively (quick: reduced alphabet), lengths 3-4 sampled. Oracle: the probe gets a complete 200 response with matching Content-Length within 5 s; well-formed requests inside the sequence get 200 (500 when the socket misbehaved); on a miss the process is inspected (exited / spinning by CPU time / hanging). Non-trivial = the sequence contains a behaviour other than a well-formed GET with valid JSON; distinct by sequence.",
+            rule: "the statime-metrics-exporter binary built from /repo is run as a subprocess; a case is a sequence of (client behaviour, observation-socket behaviour) pairs followed by a probe (well-formed GET with valid JSON behind it). Client behaviours: well-formed GET, close after 0/1/3/17 bytes, close one byte before the end of the header terminator, 2048/2049/4096 bytes without terminator then close, POST/HEAD/lowercase get, GET split over 2-5 writes and split inside the header terminator, TCP reset before sending, reset after sending without reading the reply. Socket behaviours: valid JSON, truncated JSON, wrong-shape JSON, not JSON, accept-and-close, socket absent. All sequences of length 1 and 2 are enumerated exhaustively (quick: reduced alphabet), lengths 3-4 sampled, plus for every disturbing client a run of 14 (thorough also 40) in a row. Oracle: the probe gets a complete 200 response with matching Content-Length within 5 s; well-formed requests inside the sequence get 200 (500 when the socket misbehaved); on a miss the process is inspected (exited / spinning by CPU time / hanging). Non-trivial = the sequence contains a behaviour other than a well-formed GET with valid JSON; distinct by sequence.",
             assumptions: vec!["only clients that go away are generated (a client that stays connected and silent is not)".into(), "loopback TCP and Unix sockets of the sandbox kernel".into()],
             min_nontrivial: 10,
         },
